@@ -16,7 +16,7 @@ def stages(tier, seed):
     if tier == "quick":
         return [fam("all_k1", "SitesAll", 1), fam("core_k2", "SitesCore", 2)]
     return [fam("all_k2", "SitesAll", 2, timeout=1500), fam("placement_k3", "SitesPlacement", 3, timeout=1500),
-            fam("slots_k3", "SitesSlots", 3, timeout=1500)]
+            fam("slots_k3", "SitesSlots", 3, timeout=1500), fam("types_k3", "SitesTypes", 3, timeout=1500)]
 
 
 PROPS = {"C10": dict(
@@ -35,7 +35,8 @@ PROPS = {"C10": dict(
         "theorems ClosureFixpoint, ImageClosed, PossibleIffDeclared, AppendOrderIndependent, DefaultLaw and calibrated on the "
         "library's own introspection types: every built-in type's description is compared as well)",
         "bounded: one base schema plus at most MaxEdits edits (quick: 1 over all sites, 2 over a core of 13 sites; thorough: "
-        "2 over all sites, 3 over the placement/thunk sites and over the default-value slots with placement)",
+        "2 over all sites, 3 over the placement/thunk sites, over the default-value slots with placement, and over the output-type "
+        "slot with placement/roots/union members)",
         "a reported default value is accepted iff, parsed by the real parser, it is one of the literals Lits(type, default) "
         "which TLC proved to satisfy CoerceLit(type, literal) = configured default (plain rendering, list-of-one shorthand, "
         "Int literal for a whole Float)",
